@@ -49,6 +49,8 @@ CAT = {
                                        ['factoryBase', 'Inject', 'factory', 'Inject'], 'factory{}.Inject() + factoryBase{}.Inject()'),
     'func-required-parens': ('type point struct{ X, Y int }\n\ntype points []point\n\nfunc parens(p point) string {\n\ts := ""\n\tif p == (point{}) {\n\t\ts += "zero"\n\t}\n\tfor _, q := range (points{{1, 2}}) {\n\t\ts += fmt.Sprint(q.X)\n\t}\n\tswitch (point{1, 2}) == p {\n\tcase true:\n\t\ts += "eq"\n\t}\n\tch := make(chan (<-chan int), 1)\n\tf := (func())(nil)\n\tc := (chan int)(nil)\n\tr := (<-chan int)(c)\n\treturn fmt.Sprint(s, ch != nil, f == nil, r == nil, (*point)(nil) == nil, -(-3), (1+2)*3, (*(&p)).Y)\n}\n',
                              ['point', 'points', 'parens'], 'parens(point{}) + parens(point{1, 2})'),
+    'embed-and-init': ('//go:embed data.txt\nvar embedded string\n\nvar initCount int\n\nfunc init() { initCount += 1 }\n\n// second initialiser; the directive below must survive the copy\n//\n//go:noinline\nfunc init() { initCount += 10 }\n',
+                       ['embedded', 'initCount', 'init', 'init'], 'embedded + fmt.Sprint(initCount)'),
     'func-three-index-slice-of-imported': ('func clip() string {\n\tbacking := []string{"a", "b", "c", "d", "e", "f"}\n\ts := backing[1:3:4]\n\ts = append(s, "X")\n\ts = append(s, "Y")\n\treturn $Sstrings.Join(backing, "") + $Sstrings.Join(s, "")\n}\n', ['clip'], 'clip()'),
     'func-string-rune-literals': ('func strs() string {\n\treturn "tab\\t" + `raw\\n` + string(\'x\') + string(\'\\n\') + "\\u00e9\\x41" + fmt.Sprint(\'a\', len("日本"), "q\\"q")\n}\n', ['strs'], 'strs()'),
 }
@@ -100,6 +102,8 @@ def files(rc):
         extra_decl = 'func useReflectName() int { reflect2 := 3; return reflect2 }\n'
         extra_names = ['useReflectName']
         extra_probe = ', useReflectName(), strings'
+    if prod == 'embed-and-init':
+        imp += '\t_ "embed"\n'
     # qualifiers inside the catalogue snippet
     body = decl.replace('$Sstrings.', qual).replace('$Bstrings.', qual)
     pr = probe.replace('$Sstrings.', 'strings.')
@@ -115,6 +119,8 @@ def files(rc):
     out = {rc.dir + '/wire.go': src, rc.dir + '/lib.go': lib, rc.dir + '/drive.go': drive}
     if ctx == 'dot-import-same-package-name':
         out[rc.dir + '/b/twin.go'] = 'package %s\n\nvar TwinBase = 40\n\nfunc Twice(n int) int { return 2 * n }\n' % pkg
+    if prod == 'embed-and-init':
+        out[rc.dir + '/data.txt'] = 'embedded-data\n'
     if ctx == 'vendor-like-path-element':
         out[rc.dir + '/xvendor/strings/strings.go'] = 'package strings\n\nfunc ToUpper(s string) string { return "<" + s + ">" }\n'
     return out, base_names + names + extra_names
